@@ -1219,12 +1219,10 @@ func cloneRegexp(re *syntax.Regexp) *syntax.Regexp {
 		}
 	}
 
-	// Clone Sub0 (inline storage)
-	for i := range re.Sub0 {
-		if re.Sub0[i] != nil {
-			clone.Sub0[i] = cloneRegexp(re.Sub0[i])
-		}
-	}
+	// Sub0 is only the parser's inline backing array for short Sub slices. Its
+	// entries are not children of the node (after simplification they can be
+	// stale, even point to an ancestor), so they are not followed: the clone's
+	// children live in the freshly allocated Sub.
 
 	return clone
 }
